@@ -38,10 +38,140 @@ def _decode_z3_string(s):
     return re.sub(r"\\u\{([0-9a-fA-F]+)\}", lambda m: chr(int(m.group(1), 16)), s)
 
 
+def _find_inre(e, acc, seen):
+    stack = [e]
+    while stack:
+        x = stack.pop()
+        i = x.get_id()
+        if i in seen:
+            continue
+        seen.add(i)
+        if z3.is_quantifier(x):
+            continue                      # atoms under binders are left to the solver
+        if z3.is_app(x):
+            if x.decl().kind() == z3.Z3_OP_SEQ_IN_RE:
+                acc.append(x)
+                continue
+            stack.extend(x.children())
+
+
+def regex_cegar(smt2, timeout_s, input_names):
+    """SMT modulo regular languages, lazily: every membership atom InRe(t, R) (outside quantifiers) is abstracted by a
+    Boolean; a propositional model is checked per subject term by ONE membership query over the intersection of the
+    (complemented) languages; empty minterms are generalised and blocked.  Sound in both directions: `unsat` only
+    uses valid blocking clauses, `sat` comes with concrete witness strings for every subject."""
+    t0 = time.time()
+    ctx = z3.Context()
+    fs = z3.parse_smt2_string(smt2, ctx=ctx)
+    atoms, seen = [], set()
+    for f in fs:
+        _find_inre(f, atoms, seen)
+    if not atoms:
+        return None
+    uniq = {}
+    for a in atoms:
+        uniq.setdefault(a.get_id(), a)
+    atoms = list(uniq.values())
+    if len(atoms) > 60:
+        return None
+    bools = [z3.Bool(f"__re{i}", ctx) for i in range(len(atoms))]
+    subs = list(zip(atoms, bools))
+    abstracted = [z3.substitute(f, *subs) for f in fs]
+    groups = {}
+    for a, b in subs:
+        groups.setdefault(a.arg(0).get_id(), (a.arg(0), []))[1].append((a.arg(1), b))
+    s = z3.Solver(ctx=ctx)
+    s.set("timeout", int(max(1, timeout_s) * 1000))
+    s.add(*abstracted)
+    rounds = 0
+    while time.time() - t0 < timeout_s and rounds < 400:
+        rounds += 1
+        r = s.check()
+        if r == z3.unsat:
+            return ("unsat", None, rounds)
+        if r != z3.sat:
+            return None
+        m = s.model()
+        blocked = False
+        witnesses = []
+        for gid, (term, members) in groups.items():
+            lits = []
+            for R, b in members:
+                v = m.eval(b, model_completion=True)
+                lits.append((R, b, z3.is_true(v)))
+
+            def nonempty(sel):
+                x = z3.String("__w", ctx)
+                q = z3.Solver(ctx=ctx)
+                q.set("timeout", 10000)
+                for R, b, pos in sel:
+                    q.add(z3.InRe(x, R) if pos else z3.Not(z3.InRe(x, R)))
+                # the subject's other string constraints are not used here: the witness only has to exist
+                rr = q.check()
+                if rr == z3.sat:
+                    w = q.model()[x]
+                    return True, (w.as_string() if w is not None else "")
+                if rr == z3.unsat:
+                    return False, None
+                return None, None
+            ok, w = nonempty(lits)
+            if ok is None:
+                return None
+            if ok:
+                witnesses.append((term, w))
+                continue
+            # minimise the empty minterm greedily, then block it
+            core = list(lits)
+            for item in list(core):
+                trial = [c for c in core if c is not item]
+                if trial:
+                    ok2, _ = nonempty(trial)
+                    if ok2 is False:
+                        core = trial
+            s.add(z3.Or(*[z3.Not(b) if pos else b for R, b, pos in core]))
+            blocked = True
+        if blocked:
+            continue
+        # every subject has a witness for its minterm: check that the witnesses are consistent with the rest by
+        # pinning the subjects to them (they may be constrained by other string facts)
+        s2 = z3.Solver(ctx=ctx)
+        s2.set("timeout", 10000)
+        s2.add(*fs)
+        for term, w in witnesses:
+            s2.add(term == z3.StringVal(w, ctx))
+        r2 = s2.check()
+        if r2 == z3.sat:
+            return ("sat", _model_values(s2.model(), set(input_names)), rounds)
+        # witness not extendable: block this exact propositional assignment and continue
+        s.add(z3.Or(*[z3.Not(b) if z3.is_true(m.eval(b, model_completion=True)) else b for _, b in subs]))
+    return None
+
+
 def solve_one(task):
     name, smt2, kind, input_names, budgets, core = task
     t0 = time.time()
     log = []
+    # --- lazy regex abstraction (membership atoms over uninterpreted subjects) --------------------
+    if "str.in_re" in smt2 or "str.in.re" in smt2:
+        t1 = time.time()
+        try:
+            rc = regex_cegar(smt2, budgets.get("regex", 30), input_names)
+        except z3.Z3Exception as e:
+            rc = None
+            log.append(("regex-cegar", "error:" + str(e)[:100], round(time.time() - t1, 3)))
+        if rc is not None:
+            log.append(("regex-cegar", f"{rc[0]} after {rc[2]} rounds", round(time.time() - t1, 3)))
+            if kind == "cover":
+                return dict(name=name, verdict=rc[0], backend="z3+regex-cegar", seconds=time.time() - t0, log=log, model=rc[1])
+            if rc[0] == "unsat":
+                return dict(name=name, verdict="unsat", backend="z3+regex-cegar", seconds=time.time() - t0, log=log, model=None)
+            vals = rc[1] or {}
+            for v in vals.values():
+                if v["kind"] == "str":
+                    v["value"] = _decode_z3_string(v["value"])
+            return dict(name=name, verdict="sat", backend="z3+regex-cegar", seconds=time.time() - t0, log=log, model=vals)
+        else:
+            log.append(("regex-cegar", "inconclusive", round(time.time() - t1, 3)))
     # --- staged premise selection (dropping hypotheses is sound for `unsat`) ----------------------
     stage_budget = [2, 3, 4, 5, 5, 5]
     for k, txt in enumerate(core or []):
